@@ -215,7 +215,7 @@ pub struct DeepCase {
 const CALL_DEPTH_CAP: u32 = 7;
 pub fn deep_template(kind: u8, depth: u32) -> (String, Option<String>) {
     let n = depth as usize;
-    match kind % 10 {
+    match kind % 11 {
         0 => (format!("{{{{ {}major{} }}}}", "(".repeat(n), ")".repeat(n)), Some("1".into())),
         1 => (format!("{}x{}", "{% if true %}".repeat(n), "{% endif %}".repeat(n)), Some("x".into())),
         2 => (format!("{{{{ 1{} }}}}", "+1".repeat(n)), Some((n + 1).to_string())),
@@ -224,6 +224,7 @@ pub fn deep_template(kind: u8, depth: u32) -> (String, Option<String>) {
         5 => (format!("{{{{ major{} }}}}", "|int".repeat(n)), Some("1".into())),
         6 => (format!("{{{{ {}1{} | length }}}}", "[".repeat(n), "]".repeat(n)), None),
         7 => (format!("{{{{ {}true }}}}", "not ".repeat(n)), None),
+        10 => ("{% include \"template\" %}".to_string(), None),
         8 => (format!("{{{{ {}\"a\"{} }}}}", "sanitize(value=".repeat(n), ")".repeat(n)), None),
         _ => (format!("{{{{ {}1{} }}}}", "major | default(value=".repeat(n), ")".repeat(n)), Some("1".into())),
     }
@@ -240,11 +241,12 @@ fn deep_args(c: &DeepCase) -> (Vec<String>, bool) {
 fn check_deep(c: &DeepCase, cx: &mut Cx) -> Res {
     let (args, prints_template) = deep_args(c);
     let (_, value) = deep_template(c.kind, c.depth);
-    let nested_call = matches!(c.kind % 10, 8 | 9);
+    let nested_call = matches!(c.kind % 11, 8 | 9);
+    let self_include = c.kind % 11 == 10;
     let o = proc::run(&proc::Spec { args: args.clone(), cwd: Some("/".into()), timeout_s: Some(if nested_call && c.depth > CALL_DEPTH_CAP { 10 } else { 120 }), ..Default::default() });
-    let what = format!("{} ... [template kind {} depth {} ({} bytes)]", args[..args.len() - 1].join(" "), c.kind % 10, c.depth, args.last().map(|s| s.len()).unwrap_or(0));
+    let what = format!("{} ... [template kind {} depth {} ({} bytes)]", args[..args.len() - 1].join(" "), c.kind % 11, c.depth, args.last().map(|s| s.len()).unwrap_or(0));
     cx.nt_if(c.depth >= 100 || (nested_call && c.depth >= 4));
-    cx.label(["parentheses", "if-blocks", "plus-chain", "and-chain", "concat-chain", "filter-chain", "arrays", "not-chain", "nested-calls", "nested-filter-args"][(c.kind % 10) as usize]);
+    cx.label(["parentheses", "if-blocks", "plus-chain", "and-chain", "concat-chain", "filter-chain", "arrays", "not-chain", "nested-calls", "nested-filter-args", "self-include"][(c.kind % 11) as usize]);
     cx.label(if o.timed_out { "timed-out" } else if o.signal.is_some() { "killed-by-signal" } else if o.code == Some(0) { "exit0" } else { "exit-nonzero" });
     cx.note(|| format!("{what} -> exit {:?} signal {:?}", o.code, o.signal));
     if o.timed_out {
@@ -254,7 +256,10 @@ fn check_deep(c: &DeepCase, cx: &mut Cx) -> Res {
         infra(format!("zerv timed out on {what}"));
         return Ok(());
     }
-    if o.signal.is_some() && o.err_str().contains("overflowed its stack") && c.depth >= 500 && !nested_call {
+    if self_include && o.signal.is_some() && o.err_str().contains("overflowed its stack") {
+        return Err(Bad::Known("F23", format!("{what}: the template includes itself (it is registered under the name \"template\"): stack overflow, killed by signal {:?}", o.signal)));
+    }
+    if o.signal.is_some() && o.err_str().contains("overflowed its stack") && c.depth >= 500 && !nested_call && !self_include {
         return Err(Bad::Known("F17", format!("{what}: stack overflow, killed by signal {:?}", o.signal)));
     }
     contract(&o, &what)?;
@@ -269,9 +274,9 @@ fn check_deep(c: &DeepCase, cx: &mut Cx) -> Res {
 }
 fn deep_case() -> BoxedStrategy<DeepCase> {
     // depth: log-uniform up to what fits one argv element (128 KiB); nested calls stay under the cap
-    (0u8..10, 0u32..1700, 0u8..4)
+    (0u8..11, 0u32..1700, 0u8..4)
         .prop_map(|(kind, e, site)| {
-            let per_level: u32 = match kind { 0 | 6 => 2, 1 => 24, 2 => 2, 3 => 9, 4 => 6, 5 | 7 => 4, 8 => 16, _ => 23 };
+            let per_level: u32 = match kind { 10 => 60_000, 0 | 6 => 2, 1 => 24, 2 => 2, 3 => 9, 4 => 6, 5 | 7 => 4, 8 => 16, _ => 23 };
             let max = if matches!(kind, 8 | 9) { CALL_DEPTH_CAP } else { 120_000 / per_level };
             // e in 0..1700 -> 10^(e/350) in 1 .. ~72000
             let d = (10f64.powf(e as f64 / 350.0)) as u32;
@@ -354,6 +359,24 @@ fn check_faults(c: &FaultCase, cx: &mut Cx) -> Res {
 
 fn check_special(which: &usize, cx: &mut Cx) -> Res {
     cx.nt();
+    if *which >= 18 {
+        // stdout that cannot be written to: the result, the help text and the version banner must
+        // fail cleanly (print!() panics on a write error)
+        let argv: Vec<&str> = match which {
+            18 => vec!["render", "1.2.3"],
+            19 => vec!["--help"],
+            20 => vec!["version", "--help"],
+            21 => vec!["--version"],
+            22 => vec!["check", "1.2.3"],
+            _ => vec!["flow", "--help"],
+        };
+        let o = proc::run(&proc::Spec { args: cli::sv(&argv), stdout_to: Some("/dev/full".into()), ..Default::default() });
+        let what = format!("{argv:?} with stdout on /dev/full");
+        cx.note(|| format!("{what}: exit {:?}, stderr {:?}", o.code, o.err_str().trim().chars().take(160).collect::<String>()));
+        contract(&o, &what)?;
+        ensure!(o.code == Some(1), "{what}: nothing could be written, yet the exit status is {:?}", o.code);
+        return Ok(());
+    }
     if *which >= 14 {
         // several names for one version on the tagged commit (build metadata, letter case)
         let (names, fmt): (&[&str], &str) = match which {
@@ -542,8 +565,8 @@ pub fn property() -> Property {
     )
     .shrink_iters(20);
     let deep = RandomSub::<DeepCase>::new("deep-templates", (320, 6_000), |_| deep_case(), check_deep).shrink_iters(60).floor(0.3);
-    let special = EnumSub::<usize>::new("special-states", "8 environment faults (-C not a repository / nonexistent, repository without commits (version, flow), git missing from PATH (two ways), dangling gitdir file, corrupt HEAD) and 6 unusual healthy repositories (shallow clones with the tag inside / outside the history, with -v, flow; a linked work tree; a bare clone; four commits carrying several names of one version)", |_t, shard, n, visit| {
-        for i in 0..18usize {
+    let special = EnumSub::<usize>::new("special-states", "8 environment faults (-C not a repository / nonexistent, repository without commits (version, flow), git missing from PATH (two ways), dangling gitdir file, corrupt HEAD) and 6 unusual healthy repositories (shallow clones with the tag inside / outside the history, with -v, flow; a linked work tree; a bare clone; four commits carrying several names of one version; six commands whose stdout is /dev/full)", |_t, shard, n, visit| {
+        for i in 0..24usize {
             if i % n == shard && !visit(&i) {
                 return;
             }
@@ -568,6 +591,7 @@ pub fn property() -> Property {
         known_repro: vec![
             ("F17", "deep-templates", serde_json::json!({"kind": 0, "depth": 30000, "site": 0})),
             ("F18", "deep-templates", serde_json::json!({"kind": 8, "depth": 16, "site": 0})),
+            ("F23", "deep-templates", serde_json::json!({"kind": 10, "depth": 1, "site": 0})),
         ],
     }
 }
